@@ -7,6 +7,13 @@ use crate::parse::lex::state::State;
 use crate::parse::lex::token::{Lex, Token};
 use crate::parse::lex::tokenize_direct;
 
+/// Keywords of Python which are not keywords of Mamba: as identifiers these would be copied into
+/// the output as is, which Python then refuses to parse.
+const PYTHON_KEYWORDS: [&str; 12] = [
+    "assert", "async", "await", "del", "elif", "except", "finally", "global", "lambda", "nonlocal",
+    "try", "yield",
+];
+
 #[allow(clippy::cognitive_complexity)]
 pub fn into_tokens(c: char, it: &mut Peekable<Chars>, state: &mut State) -> LexResult {
     match c {
@@ -161,6 +168,10 @@ pub fn into_tokens(c: char, it: &mut Peekable<Chars>, state: &mut State) -> LexR
                     }
                     _ => break,
                 }
+            }
+            if PYTHON_KEYWORDS.contains(&id_or_operation.as_str()) {
+                let msg = format!("'{id_or_operation}' is a keyword in Python and cannot be an identifier");
+                return Err(LexErr::new(state.pos, None, &msg));
             }
             create(state, as_op_or_id(id_or_operation))
         }
